@@ -280,6 +280,24 @@ func c19DecisionTable(c *h.Ctx, part, parts int) {
 }
 
 // c19Real: a silent player runner sits at a real table; the others are driven by the harness.
+// c19AwaitCalls waits until the spy has recorded at least n calls made after mono time `since`, or until max has
+// passed (an upper bound that only ends the wait: a slow machine delays the runner's timer, it does not cancel it).
+func c19AwaitCalls(sp *spyAdapter, since int64, n int, min, max time.Duration) {
+	time.Sleep(min)
+	for dl := time.Now().Add(max - min); time.Now().Before(dl); time.Sleep(20 * time.Millisecond) {
+		k := 0
+		for _, cl := range sp.snapshotCalls() {
+			if cl.Mono > since {
+				k++
+			}
+		}
+		if k >= n {
+			break
+		}
+	}
+	time.Sleep(150 * time.Millisecond) // room for a second, unwanted call
+}
+
 // c19OpenedThenPlaying: a table-level event right after the open delivers the hand's first state on a snapshot whose
 // status is still "opened"; the playing snapshot that follows carries the same state. The runner must still act on
 // the request (once, after the thinking time).
@@ -319,10 +337,10 @@ func c19OpenedThenPlaying(c *h.Ctx) {
 			sp.gs = t2.State.GameState
 			t0 := h.Mono()
 			a.UpdateTableState(t2)
-			time.Sleep(1500 * time.Millisecond)
+			c19AwaitCalls(sp, t0, 1, 1200*time.Millisecond, 5*time.Second)
 			calls := sp.snapshotCalls()
 			if len(calls) != 1 || calls[0].Act != ev.want {
-				c.Violate("C19/no-automatic-action/state-first-seen-on-an-opened-snapshot", fmt.Sprintf("%s runner, %s allowed %v: the state was first delivered on a snapshot with status opened, then on the playing snapshot; 1.5 s after that the runner has submitted %v (expected one %s)", status, ev.event, ev.allowed, calls, ev.want), nil)
+				c.Violate("C19/no-automatic-action/state-first-seen-on-an-opened-snapshot", fmt.Sprintf("%s runner, %s allowed %v: the state was first delivered on a snapshot with status opened, then on the playing snapshot; 5 s after that the runner has submitted %v (expected one %s)", status, ev.event, ev.allowed, calls, ev.want), nil)
 				return
 			}
 			if status != "suspended" && time.Duration(calls[0].Mono-t0) < time.Second-3*time.Millisecond {
@@ -355,7 +373,7 @@ func c19ManualAnswers(c *h.Ctx) {
 			}
 		}
 		if len(auto) == 0 {
-			c.Violate("C19/no-automatic-action/after-a-manual-answer", fmt.Sprintf("%s: the player was asked again and stayed silent; 1.6 s later (thinking time 1 s) nothing has been submitted for him", what), calls)
+			c.Violate("C19/no-automatic-action/after-a-manual-answer", fmt.Sprintf("%s: the player was asked again and stayed silent; 5 s later (thinking time 1 s) nothing has been submitted for him", what), calls)
 			return false
 		}
 		if el := time.Duration(auto[0].Mono - askedAt); el < time.Second-5*time.Millisecond {
@@ -385,7 +403,7 @@ func c19ManualAnswers(c *h.Ctx) {
 		sp.gs = t2.State.GameState
 		asked := h.Mono()
 		a.UpdateTableState(t2)
-		time.Sleep(1600 * time.Millisecond)
+		c19AwaitCalls(sp, asked, 1, 1200*time.Millisecond, 5*time.Second)
 		if !judge("answered by hand in hand 1, asked again in hand 2", sp.snapshotCalls(), asked, "check") {
 			return
 		}
@@ -415,7 +433,7 @@ func c19ManualAnswers(c *h.Ctx) {
 			<-done
 		}
 		pr.Call()
-		time.Sleep(1600 * time.Millisecond)
+		c19AwaitCalls(sp, asked, 1, 1200*time.Millisecond, 5*time.Second)
 		if !judge("asked again while his manual call was still on its way", sp.snapshotCalls(), asked, "check") {
 			return
 		}
@@ -435,7 +453,7 @@ func c19ManualAnswers(c *h.Ctx) {
 			sp.gs = t.State.GameState
 			asked := h.Mono()
 			a.UpdateTableState(t)
-			time.Sleep(1300 * time.Millisecond)
+			c19AwaitCalls(sp, asked, 1, 1100*time.Millisecond, 5*time.Second)
 			if !judge(fmt.Sprintf("idle, resumed, request %d left unanswered", k+1), sp.snapshotCalls(), asked, "check") {
 				return
 			}
@@ -459,7 +477,7 @@ func c19ManualAnswers(c *h.Ctx) {
 		sp2.gs = t2.State.GameState
 		n1 := len(sp1.snapshotCalls())
 		a.UpdateTableState(t2)
-		time.Sleep(50 * time.Millisecond)
+		c19AwaitCalls(sp2, 0, 1, 20*time.Millisecond, 3*time.Second)
 		if got1, got2 := len(sp1.snapshotCalls())-n1, len(sp2.snapshotCalls()); got2 != 1 || got1 != 0 {
 			c.Violate("C19/no-automatic-action/sent-to-another-table", fmt.Sprintf("the (suspended) player was moved to a second table and asked there: the asking table received %d automatic actions, the table he had left %d", got2, got1), map[string]interface{}{"table-1": sp1.snapshotCalls(), "table-2": sp2.snapshotCalls()})
 			return
